@@ -194,8 +194,8 @@ pub fn run(rep: &Report) {
     );
     let plain = C04 { cfg: cfg_plain(), name: "invariants" };
     rep.run_regressions(&plain);
-    rep.explore(&plain, rep.tier.pick(5000, 80_000), 600);
+    rep.explore(&plain, rep.tier.pick(10_000, 80_000), 600);
     let faults = C04 { cfg: cfg_faults(), name: "invariants-faults" };
     rep.run_regressions(&faults);
-    rep.explore(&faults, rep.tier.pick(6000, 100_000), 600);
+    rep.explore(&faults, rep.tier.pick(12_000, 100_000), 600);
 }
